@@ -29,10 +29,13 @@ PROPS = {
         "title": "workers never crash (panic-freedom of builtins, heap operations and hot instruction handlers)",
         "units": {
             "rope": (None, ("safety",)),
-            "heap": (None, ("safety",)),
-            "handlers": (None, ("safety",)),
-            "coldpath": (None, ("safety",)),
-            "equality": (None, ("safety",)),
+            # heap accounting: a count that drifts from what is rooted is a worker panic in a debug build (the
+            # refcount assertion at process completion in Executor::step, the underflow / use-after-free
+            # debug_assert!s in release / retain / get_binary_data), so for these units every class counts
+            "heap": (None, ALL),
+            "handlers": (None, ALL),
+            "coldpath": (None, ALL),
+            "equality": [(["Executor::handle_equal"], ALL), (None, ("safety",))],
             "builtins_binary": (None, ("safety",)),
             "builtins_integer": (None, ("safety",)),
             "builtins_vector": (None, ("safety",)),
